@@ -6,6 +6,7 @@ from vmon.refs import b58 as RB, bech32 as R32, ec as REC, keytext as KT
 from vmon.gen import nets as NETS
 
 PROPERTY = "C18"
+PRELOAD_NETWORK_ORDERS = [["btc", "xtn", "ltc", "bch", "grs", "doge", "dash", "btg"], ["btg", "grs", "bch", "doge", "ltc", "xtn", "btc"]]
 LEVEL = "exploration"
 TECHNIQUE = ("runtime monitor on every ParseAPI entry point (found by introspection) x every usable network; "
              "independent Base58Check/Bech32/WIF/BIP32/SEC text model decides refusal, value and kind separation")
